@@ -58,9 +58,12 @@ Definition decode_gen (i o : sx) : option gen :=
   | SList (SInt mid :: SInt t0 :: SList clk :: more), SList [SInt auto; SList obs] =>
       (* an optional 4th component n > 1 says that n goroutines shared the generator: the
          observed outcomes are then in the order in which the calls consumed the readings,
-         and the model's answer for the script must be the same whoever made the calls *)
+         and the model's answer for the script must be the same whoever made the calls.
+         An optional 5th component seeds nanosecond offsets inside the time units of the
+         readings (sub-unit jitter of the wall clock): the model works on time units, so its
+         answer — and the property's — must not depend on it *)
       match more, expand_clock clk, expand_obs obs with
-      | ([] | [SInt _]), Some c, Some ob => Some (mkGen (eff_mid mid auto) t0 c ob)
+      | ([] | [SInt _] | [SInt _; SInt _]), Some c, Some ob => Some (mkGen (eff_mid mid auto) t0 c ob)
       | _, _, _ => None
       end
   | _, _ => None
